@@ -835,7 +835,9 @@ def runLine (st : St) (lhs : List String) : Except String (St × String) :=
             | .error e => .error e
             | .ok none => runLine st (inner :: rest)   -- the fuse does not fire: the operation runs to completion
             -- the queue survives the caught panic: later lines of the case operate on the model's post-unwinding state
-            | .ok (some (k', s')) => .ok ({ st with kind := k', s := s' }, s!"fault user | {kindName k'} {showCore s'}")
+            -- comparison count of the interrupted call: a `!cmp<k>` fuse fires INSIDE the k-th comparison (the real counter has
+            -- counted it; nothing may compare while unwinding), a `!cb<k>` fuse after the comparisons the crash model performed
+            | .ok (some (k', s')) => .ok ({ st with kind := k', s := s' }, s!"fault user | {kindName k'} {showCore s'} t {if isCb then s'.ticks - st.s.ticks else k}")
       | _, _ => .error s!"bad crash line {op}"
     else
       match (exec st op).run args with
